@@ -5,7 +5,6 @@ import os
 from . import common
 from .common import Check
 
-FINDING_IDS = ("not-starts-statement", "semicolon-as-operand")
 
 
 def read_cases(path):
@@ -94,13 +93,7 @@ def main(argv):
                 elif impl != model:
                     corr_fail.append(rec)
                 if spec != "-" and impl != spec:
-                    if impl == model and tag:
-                        ok = True
-                        for fid in tag.split("+"):
-                            ok = c.known_finding(fid, rec["text"].replace("\n", " <newline> ")) and ok
-                        if ok:
-                            known_rows += 1
-                            continue
+                    # no known findings are registered for C06: every failure is a violation
                     prop_fail.append(rec)
                     continue
                 # value / effects of the block against the prefix forms (stage 2)
